@@ -119,7 +119,7 @@ pub struct Sc {
 
 // ---------------------------------------------------------------- generation
 
-const QUICK_RUNS: u64 = 4096;
+const QUICK_RUNS: u64 = 8192;
 const THOROUGH_RUNS: u64 = 24576;
 
 pub fn runs_for(_prop: &str, tier: Tier) -> u64 {
